@@ -256,6 +256,8 @@ def taxa_json(case, id_="taxa"):
             t["attributes"] = {"date": case["dates"][nm]}
         elif case["tree"] == "time":
             t["attributes"] = {"date": 0.0}
+        if case.get("attribute_pattern"):
+            t.setdefault("attributes", {})["trait"] = case["seqs"][nm]
         taxa.append(t)
     return {"id": id_, "type": "Taxa", "taxa": taxa}
 
@@ -283,16 +285,66 @@ def clock_json(case):
     return {"id": "clock", "type": "SimpleClockModel", "tree_model": "tree", "rate": gm.param("clock.rate", c["rates"], dtype="torch.float64")}
 
 
+_FASTA_DIR = []
+
+
+def _write_fasta(records, wrap=0, blank=False, comment=False):
+    import atexit
+    import hashlib
+    import os
+    import shutil
+    import tempfile
+
+    if not _FASTA_DIR:
+        _FASTA_DIR.append(tempfile.mkdtemp(prefix="vt_fasta_"))
+        atexit.register(shutil.rmtree, _FASTA_DIR[0], True)
+    lines = []
+    for nm, seq in records:
+        lines.append(">" + nm)
+        if wrap:
+            lines.extend(seq[i:i + wrap] for i in range(0, len(seq), wrap))
+        else:
+            lines.append(seq)
+        if blank:
+            lines.append("")
+    text = "\n".join(lines) + "\n"
+    path = os.path.join(_FASTA_DIR[0], hashlib.sha1(text.encode()).hexdigest()[:16] + ".fasta")
+    with open(path, "w") as fp:
+        fp.write(text)
+    return path
+
+
+def as_attribute_case(case):
+    """The same case with its data reduced to one symbol per taxon, handed over as a taxon attribute (AttributePattern)."""
+    import copy
+
+    c = copy.deepcopy(case)
+    c["seqs"] = {nm: sq[:1] for nm, sq in case["seqs"].items()}
+    c["attribute_pattern"] = True
+    c.pop("indices", None)
+    c.pop("aln_file", None)
+    c.pop("aln_taxa_order", None)
+    return c
+
+
 def likelihood_json(case):
     """List of top-level elements, as a torchtree input file would have them."""
     seq_order = case.get("seq_order") or case["names"]
     aln = {"id": "aln", "type": "Alignment", "datatype": datatype_json(case["datatype"]), "taxa": "taxa",
            "sequences": [{"taxon": nm, "sequence": case["seqs"][nm]} for nm in seq_order]}
+    if case.get("aln_file"):
+        # the 'file' form (what torchtree-cli writes): a FASTA file, sequences wrapped over several lines, optional blank lines
+        del aln["sequences"]
+        aln["file"] = _write_fasta([(nm, case["seqs"][nm]) for nm in seq_order], **case["aln_file"])
+    pattern = dict({"id": "sp", "type": "SitePattern", "alignment": aln}, **({"indices": case["indices"]} if case.get("indices") else {}))
+    if case.get("attribute_pattern"):
+        # tip data read from a taxon attribute (discrete trait): one symbol per taxon (see as_attribute_case)
+        pattern = {"id": "sp", "type": "AttributePattern", "taxa": "taxa", "data_type": datatype_json(case["datatype"]), "attribute": "trait"}
     like_ = {"id": "like", "type": "TreeLikelihoodModel",
              "tree_model": tree_json(case),
              "site_model": gm.site_json(case["site"]),
              "substitution_model": gm.subst_json(case["subst"]),
-             "site_pattern": dict({"id": "sp", "type": "SitePattern", "alignment": aln}, **({"indices": case["indices"]} if case.get("indices") else {}))}
+             "site_pattern": pattern}
     if case.get("use_ambiguities"):
         like_["use_ambiguities"] = True
     if case.get("use_tip_states"):
